@@ -65,6 +65,12 @@ func main() {
 		}
 		return
 	}
+	if os.Args[1] == "debug-encsib" {
+		c := core.NewCtx("DBG", "quick")
+		rules.DebugEncodingSiblings(c)
+		rules.DebugEncodingSiblingsCount(c)
+		return
+	}
 	if os.Args[1] == "debug-layout" {
 		c := core.NewCtx("DBG", "quick")
 		rules.DebugLayout(c)
